@@ -153,6 +153,80 @@ pub fn shrink(h: &History, budget: usize) -> Option<(History, usize)> {
             }
         }
     }
+    // handle substitution: use an earlier handle to the same node, so that the steps which only
+    // produced the later handle become removable
+    let input_fields = ["recv=", "new=", "old=", "ref=", "node=", "el=", "attr=", "list=", "vec=", "map=", "ctx="];
+    let mut substituted = false;
+    let mut i = 0;
+    while i < cur.steps.len() && execs < budget {
+        let line = cur.steps[i].to_line();
+        let mut done = false;
+        for tok in line.split(' ') {
+            let (f, v) = match input_fields.iter().find(|f| tok.starts_with(**f)) {
+                Some(f) => (*f, &tok[f.len()..]),
+                None => continue,
+            };
+            let b: usize = match v.parse() {
+                Ok(b) => b,
+                Err(_) => continue,
+            };
+            // earlier outputs, smallest first
+            let mut outs: Vec<usize> = vec![];
+            for s in &cur.steps[..i] {
+                for t in s.to_line().split(' ') {
+                    if let Some(o) = t.strip_prefix("out=") {
+                        if let Ok(o) = o.parse::<usize>() {
+                            if o != b && !outs.contains(&o) {
+                                outs.push(o);
+                            }
+                        }
+                    }
+                }
+            }
+            outs.sort();
+            for a in outs {
+                if a >= b || execs >= budget {
+                    break;
+                }
+                let new_line: Vec<String> = line.split(' ').map(|t| if t == tok { format!("{}{}", f, a) } else { t.to_string() }).collect();
+                if let Some(st) = Step::from_line(&new_line.join(" ")) {
+                    let mut c = cur.clone();
+                    c.steps[i] = st;
+                    if reproduces(&c, &prop, &clause, &mut execs).is_some() {
+                        cur = c;
+                        substituted = true;
+                        done = true;
+                        break;
+                    }
+                }
+            }
+            if done {
+                break;
+            }
+        }
+        if !done {
+            i += 1;
+        }
+    }
+    if substituted {
+        let mut changed = true;
+        while changed && execs < budget {
+            changed = false;
+            let mut i = 0;
+            while i < cur.steps.len() && execs < budget {
+                let mut cand = cur.steps.clone();
+                cand.remove(i);
+                let c = with_steps(&cur, cand);
+                if let Some((at, _)) = reproduces(&c, &prop, &clause, &mut execs) {
+                    cur = c;
+                    cur.steps.truncate(at + 1);
+                    changed = true;
+                } else {
+                    i += 1;
+                }
+            }
+        }
+    }
     // drop the second document if it is not needed
     if cur.docs.len() > 1 && execs < budget {
         let uses_doc1 = cur.steps.iter().any(|s| s.to_line().contains("doc=1"));
